@@ -404,6 +404,18 @@ def _H(*parts: bytes) -> bytes:
     return hashlib.sha512(b"".join(parts)).digest()
 
 
+_pow_memo = {}
+
+
+def _powm(b: int, e: int, m: int) -> int:
+    """memoised modular exponentiation (many scenarios share one SRP exchange)"""
+    k = (b, e, m)
+    r = _pow_memo.get(k)
+    if r is None:
+        r = _pow_memo[k] = pow(b, e, m)
+    return r
+
+
 def _pad(n: int) -> bytes:
     return n.to_bytes(SRP_LEN, "big")
 
@@ -464,7 +476,7 @@ def srp_client_K(code: bytes, salt16: bytes, a: int, A: bytes, B: bytes) -> byte
     x = srp_x(salt16, code)
     u = int.from_bytes(_H(A, B), "big")
     Bi = int.from_bytes(B, "big")
-    S = pow((Bi - SRP_K * pow(SRP_G, x, SRP_N)) % SRP_N, a + u * x, SRP_N)
+    S = _powm((Bi - SRP_K * _powm(SRP_G, x, SRP_N)) % SRP_N, a + u * x, SRP_N)
     return _H(_pad(S))
 
 
@@ -501,8 +513,8 @@ class SetupAccessory:
         self.client_name, self.ctrl_ltsk_name = client_name, ctrl_ltsk_name
         self.lenient = lenient            # a malicious accessory: answers M3 with its own proof even if M1 is wrong
         self.b = int.from_bytes(hashlib.sha512(b"verif|srp-b|" + str(b).encode()).digest()[:32], "big")
-        self.v = pow(SRP_G, srp_x(self.salt, self.code), SRP_N)
-        self.B = (SRP_K * self.v + pow(SRP_G, self.b, SRP_N)) % SRP_N
+        self.v = _powm(SRP_G, srp_x(self.salt, self.code), SRP_N)
+        self.B = (SRP_K * self.v + _powm(SRP_G, self.b, SRP_N)) % SRP_N
         self.code_v, self.salt_v = lit(self.code), lit(self.salt)
         self.B_v = U._reg(V(_pad(self.B), (f"srpB({b},{msg(self.code_v)},{msg(self.salt_v)})",)))
         self.K = None
@@ -524,7 +536,7 @@ class SetupAccessory:
             return False, reject
         A_v = U._reg(V(A, (f"srpA({self.client_name})",)))
         u = int.from_bytes(_H(_pad(int.from_bytes(A, "big")), _pad(self.B)), "big")
-        S = pow(int.from_bytes(A, "big") * pow(self.v, u, SRP_N), self.b, SRP_N)
+        S = _powm(int.from_bytes(A, "big") * _powm(self.v, u, SRP_N), self.b, SRP_N)
         Kb = _H(_pad(S))
         K_v = U._reg(V(Kb, (f"srpks({msg(self.code_v)},{msg(self.salt_v)},{self.bname},{msg(A_v)})",)))
         self.K, self.A_v = K_v, A_v
